@@ -56,6 +56,13 @@ def handle(q):
             if op == "fdiv": return f2b(x / y)
         if op == "rangelen": return str(len(range(int(a[0]), int(a[1]), int(a[2]))))
         if op == "rangein": return str(int(int(a[3]) in range(int(a[0]), int(a[1]), int(a[2]))))
+        if op == "rangeslice":
+            opt = lambda t: None if t == "" else int(t)
+            s = range(int(a[0]), int(a[1]), int(a[2]))[opt(a[3]):opt(a[4]):opt(a[5])]
+            n = len(s)
+            if n == 0:
+                return "0,-,-"
+            return "%d,%d,%d" % (n, s[0], s[-1])
         return "UNSUPPORTED"
     except Exception as ex:
         return "ERR"
